@@ -28,14 +28,15 @@ RULE = ('seven case kinds; five over packages of 1-5 stub chemicals (quadratic d
         '(tsat) Chemical.Tsat branches; (cache) histories of constructor calls, object identity pattern and Tmin/Tmax/Pmin/Pmax '
         'of every returned instance; (history) 3-8 operations on ONE BubblePoint/DewPoint pair - calls that hand over 1-2 composition arrays owned by the caller '
         '(the array objects themselves) interleaved with in-place updates of those arrays, recurring T / P specifications, repeats, k*z - '
-        'compared with run_hist of the model (results and final array contents); cache histories also switch the session default '
+        'compared with run_hist of the model (results and final array contents; family aba = one solver asked for spec A, then other arrays / specs / in-place updates, then spec A again); cache histories use, besides the n chemical objects, n twin objects with the SAME IDs but other Psat correlations, and also switch the session default '
         'package (settings.set_thermo) and construct with and without the thermo argument, compared with run_session (identity pattern, '
-        'domain and Gamma/Phi/PCF classes of every instance); (real) 24 (quick) / 156 (thorough) structured real-chemical cases per run with the real '
-        'flexsolve - templates plain / heavy (low-volatility chemicals near the lower end of their correlations: dew pressures of a few Pa) / mixed-groups (chemicals without UNIFAC/Dortmund groups listed among chemicals with groups, random '
+        'domain and Gamma/Phi/PCF classes of every instance); (real) 30 (quick) / 150 (thorough) structured real-chemical cases per run with the real '
+        'flexsolve - templates plain / immiscible (water with organics it is partially miscible with: several liquid roots) / heavy (low-volatility chemicals near the lower end of their correlations: dew pressures of a few Pa) / mixed-groups (chemicals without UNIFAC/Dortmund groups listed among chemicals with groups, random '
         'order) / edge (specification 0.25-25 K above the common lower end of the vapour-pressure correlations) over the ideal, Dortmund '
         'and UNIFAC packages - on which the direct oracle evaluates every clause plus the package contracts the theorems assume '
         '(Gamma/Phi/PCF pure, permuted with the chemical list, Gamma.f/args == Gamma(), repeat of the first calls unchanged, caller array re-used after an in-place update, array not written to, '
-        'bounded fall-back path forced by making the open solver raise agrees with the regular path); '
+        'bounded fall-back path forced by making the open solver raise RuntimeError / step to a non-physical point (InfeasibleRegion from the residual) agrees with the regular path, '
+        'same call right after solves on either side of the composition range identical, instance data == fresh build from its own chemical objects, a raising solver is a finding); '
         'plus two fixed real-chemical cases (Water/Ethanol, k*z and permuted list) evaluated with the direct oracle.  '
         'Values to 1e-9 relative, structure exactly.  non-trivial = the call returned values '
         '(not an exception) through the N>=2 path or a history with at least one cache hit; distinct = distinct case hash')
@@ -125,6 +126,8 @@ def env():
             return 1 + self.d * (P - Psats) / 4194304
 
     pool = [tmo.Chemical(n, search_db=False, MW=16., Hf=0., Cn=64., phase='l', default=True) for n in POOL]
+    # other Chemical objects with the same IDs (a chemical created again, e.g. with a re-fitted vapour-pressure correlation)
+    pool2 = [tmo.Chemical(n, search_db=False, MW=16., Hf=0., Cn=64., phase='l', default=True) for n in POOL]
     chems = tmo.Chemicals(pool)
     tmo.settings.set_thermo(chems)
     thermos = {}
@@ -134,7 +137,7 @@ def env():
             Gamma=eq.IdealActivityCoefficients if g == 'i' else StubGamma,
             Phi=eq.IdealFugacityCoefficients if ph == 'i' else StubPhi,
             PCF=eq.MockPoyintingCorrectionFactors if pc == 'i' else StubPCF)
-    _env.update(tmo=tmo, eq=eq, bpm=bpm, dpm=dpm, chm=chm, pool={c.ID: c for c in pool}, thermos=thermos,
+    _env.update(tmo=tmo, eq=eq, bpm=bpm, dpm=dpm, chm=chm, pool={c.ID: c for c in pool}, pool2={c.ID: c for c in pool2}, thermos=thermos,
                 real_flx=bpm.flx, real_gamma_iter=dpm.gamma_iter,
                 real_iq=chm.IQ_interpolation, real_as=chm.aitken_secant,
                 InfeasibleRegion=tmo.exceptions.InfeasibleRegion)
@@ -219,28 +222,34 @@ def py_gamma_iter():
     finally:
         e['dpm'].gamma_iter = gi
 
-class _RaisingOpenSolver:
-    """flexsolve with aitken_secant raising RuntimeError: drives the wrappers into their `except RuntimeError` fall-back,
-    which then runs the real IQ_interpolation"""
-    def __init__(self, real):
+class _FailingOpenSolver:
+    """flexsolve with aitken_secant failing the way it fails in practice, so that the wrappers enter their
+    `except RuntimeError` fall-back (which then runs the real IQ_interpolation):
+      'runtime'    - the solver itself raises RuntimeError (no convergence);
+      'infeasible' - the solver steps to a non-physical point (T <= 0 / P <= 0): the RESIDUAL raises the library's own
+                     InfeasibleRegion, which the fall-back has to catch as well."""
+    def __init__(self, real, how):
         self._real = real
+        self._how = how
     def __getattr__(self, name):
         return getattr(self._real, name)
-    def aitken_secant(self, *a, **k):
+    def aitken_secant(self, f, x0, x1=None, xtol=0., ytol=5e-8, args=(), **k):
+        if self._how == 'infeasible':
+            f(-1., *args)
         raise RuntimeError('open solver made to fail (error-path probe)')
 
 @contextlib.contextmanager
-def forced_fallback():
+def forced_fallback(how='runtime'):
     e = env()
     bpm, dpm = e['bpm'], e['dpm']
     old_b, old_d = bpm.flx, dpm.flx
-    bpm.flx = dpm.flx = _RaisingOpenSolver(e['real_flx'])
+    bpm.flx = dpm.flx = _FailingOpenSolver(e['real_flx'], how)
     try:
         yield
     finally:
         bpm.flx, dpm.flx = old_b, old_d
 
-def install(pk):
+def install(pk, twins=None):
     """Re-parametrise the pooled stub chemicals for this case and return (chemical tuple, thermo)."""
     e = env()
     cs = []
@@ -252,6 +261,12 @@ def install(pk):
         cs.append(ch)
     e['eq'].BubblePoint._cached.clear()
     e['eq'].DewPoint._cached.clear()
+    if twins is not None:
+        for name, c in zip(POOL, twins):
+            ch = e['pool2'][name]
+            ch._Psat = StubPsat(c['c0'], c['c1'], c['c2'], c['Tlo'], c['Thi'])
+            ch._Tb = c['Tb']; ch._Tc = c['Tc']; ch._Pc = c['Pc']
+            cs.append(ch)
     return tuple(cs), e['thermos'][pk['G'] + pk['Phi'] + pk['PCF']]
 
 ERR = {'InfeasibleRegion': 'EInfeasible', 'ValueError': 'EValue', 'RuntimeError': 'ERuntime', 'FloatingPointError': 'EZeroDiv',
@@ -331,7 +346,7 @@ def gen_vec(rng, n, choices):
 
 def gen_case(rng):
     r = rng.random()
-    if r < 0.30:
+    if r < 0.27:
         pk = gen_pkg(rng)
         n = len(pk['chems'])
         sub = rng.choice(['bT', 'bP', 'bTi', 'bPyi', 'dT', 'dP', 'dTi', 'dPxi'])
@@ -344,7 +359,7 @@ def gen_case(rng):
                               [0, 16384, 65536, 32768, 8192, 4096] if sub in ('dT', 'dTi') else small),
                 'v2': gen_vec(rng, n, small), 'v3': gen_vec(rng, n, [4096, 16384, 65536, 32768]),
                 'buf': gen_vec(rng, n, small + [0, 0]), 'nweg': rng.choice([0, 1, 1, 2])}
-    if r < 0.80:
+    if r < 0.70:
         pk = gen_pkg(rng)
         n = len(pk['chems'])
         which = rng.choice(['Ty', 'Py', 'Tx', 'Px'])
@@ -352,43 +367,77 @@ def gen_case(rng):
         z = gen_z(rng, n, malformed=rng.random() < 0.12)
         T = dy(rng, TS) if which[0] == 'P' else None
         P = dy(rng, PS + [8388608]) if which[0] == 'T' else None
+        if P == 8388608 and pk['Phi'] == 's':
+            P = 1048576.       # (the stand-in phi = 1 + c*y*P/2^20 must stay away from zero)
         c = {'kind': 'solve', 'which': which, 'pkg': pk, 'z': z, 'T': T, 'P': P, 'via_call': via_call,
              'ks': gen_kind(rng, which[0]), 'ki': gen_kind(rng, which[0], allow_raise=rng.random() < 0.3),
              'nweg': rng.choice([0, 1, 1, 2])}
         if via_call and rng.random() < 0.3:   # malformed argument combinations of __call__
             c['T'], c['P'] = rng.choice([(None, None), (300., 65536.), (0., 65536.), (300., 0.), (0., 0.), (0., None)])
         return c
-    if r < 0.84:
+    if r < 0.79:
         # history of calls on ONE BubblePoint / DewPoint pair; the caller owns 1-2 composition arrays, hands the array
-        # objects themselves to the solvers and updates them in place between calls (repeats, k*z, alternating T and P solves)
-        pk = gen_pkg(rng)
+        # objects themselves to the solvers and updates them in place between calls.  Two families:
+        #  'aba'  - one solver: spec A for array 0, then (other arrays / other specs / in-place updates), then spec A for the
+        #           restored array 0 again (anything the object keeps from one call of a method to its next call shows);
+        #  'mix'  - random interleaving of the four solvers with recurring specifications, repeats and k*z
+        pk = gen_pkg(rng, n=rng.choice([2, 2, 3]))
         n = len(pk['chems'])
-        bufs = [gen_z(rng, n, malformed=rng.random() < 0.1) for _ in range(rng.choice([1, 1, 2]))]
-        ops = []
-        cur = [list(b) for b in bufs]
+        fam = rng.choice(['aba', 'aba', 'mix'])
         fixed = {'T': dy(rng, TS), 'P': dy(rng, PS)}       # specifications that recur, so that "same T, array updated" occurs
-        for _ in range(rng.randint(3, 7)):
-            if ops and rng.random() < 0.35:
-                i = rng.randrange(len(bufs))
-                r2 = rng.random()
-                znew = ([x * rng.choice([2., 0.5, 4.]) for x in cur[i]] if r2 < 0.3 else gen_z(rng, n))
-                ops.append(['set', i, znew]); cur[i] = znew
-                continue
-            which = rng.choice(['Ty', 'Py', 'Tx', 'Px', 'Py', 'Px'])
+        if fam == 'aba':
+            which = rng.choice(['Ty', 'Py', 'Tx', 'Px'])
             var = 'P' if which[0] == 'T' else 'T'
-            arg = fixed[var] if rng.random() < 0.7 else dy(rng, PS if var == 'P' else TS)
-            ops.append(['call', which, rng.randrange(len(bufs)), arg])
-        first = next(o for o in ops if o[0] == 'call')
-        if rng.random() < 0.7:
-            ops.append(list(first))           # the first call again, after the others
-        return {'kind': 'history', 'pkg': pk, 'bufs': bufs, 'ops': ops, 'ks': rng.choice([['newton'], ['echo'], ['newton']]),
-                'ki': rng.choice([['newton'], ['echo']]), 'nweg': rng.choice([0, 1, 1, 2])}
-    if r < 0.88:
+            vals = PS if var == 'P' else TS
+            bufs = [gen_z(rng, n), gen_z(rng, n)]
+            a0 = fixed[var]
+            ops = [['call', which, 0, a0]]
+            for _ in range(rng.randint(1, 3)):
+                r2 = rng.random()
+                if r2 < 0.4:
+                    ops.append(['call', which, 1, a0 if rng.random() < 0.5 else dy(rng, vals)])
+                elif r2 < 0.7:
+                    ops.append(['set', 0, gen_z(rng, n)])
+                    ops.append(['call', which, 0, a0 if rng.random() < 0.6 else dy(rng, vals)])
+                else:
+                    w2 = rng.choice(['Ty', 'Py', 'Tx', 'Px'])
+                    ops.append(['call', w2, rng.randrange(2), fixed['P' if w2[0] == 'T' else 'T']])
+            ops.append(['set', 0, list(bufs[0])])
+            ops.append(['call', which, 0, a0])
+        else:
+            bufs = [gen_z(rng, n, malformed=rng.random() < 0.1) for _ in range(rng.choice([1, 1, 2]))]
+            ops = []
+            cur = [list(b) for b in bufs]
+            for _ in range(rng.randint(3, 7)):
+                if ops and rng.random() < 0.35:
+                    i = rng.randrange(len(bufs))
+                    r2 = rng.random()
+                    znew = ([x * rng.choice([2., 0.5, 4.]) for x in cur[i]] if r2 < 0.3 else gen_z(rng, n))
+                    ops.append(['set', i, znew]); cur[i] = znew
+                    continue
+                which = rng.choice(['Ty', 'Py', 'Tx', 'Px', 'Py', 'Px'])
+                var = 'P' if which[0] == 'T' else 'T'
+                arg = fixed[var] if rng.random() < 0.7 else dy(rng, PS if var == 'P' else TS)
+                ops.append(['call', which, rng.randrange(len(bufs)), arg])
+            first = next(o for o in ops if o[0] == 'call')
+            if rng.random() < 0.7:
+                ops.append(list(first))           # the first call again, after the others
+        return {'kind': 'history', 'family': fam, 'pkg': pk, 'bufs': bufs, 'ops': ops,
+                'ks': rng.choice([['newton'], ['echo'], ['newton']]), 'ki': rng.choice([['newton'], ['echo']]),
+                'nweg': rng.choice([0, 1, 1, 2])}
+    if r < 0.83:
         ch = gen_chem(rng)
         return {'kind': 'tsat', 'chem': ch, 'P': dy(rng, PS), 'ks': gen_kind(rng, 'T'), 'ki': gen_kind(rng, 'T', allow_raise=rng.random() < 0.3)}
-    # constructor histories: explicit thermo or the session default (settings.set_thermo between the calls)
+    # constructor histories: explicit thermo or the session default (settings.set_thermo between the calls); besides the n
+    # chemical objects there are n "twins": other Chemical objects with the SAME IDs but other vapour-pressure correlations
+    # (a re-fitted / re-created chemical): object i + n is the twin of object i
     pk = gen_pkg(rng, n=rng.choice([3, 4, 5]))
     n = len(pk['chems'])
+    twins = []
+    for c in pk['chems']:
+        t = gen_chem(rng)
+        t.update(a=c['a'], c=c['c'], d=c['d'])      # the stand-in Gamma/Phi/PCF read their parameters per ID
+        twins.append(t)
     THS = ['iii', 'sii', 'isi', 'iis', 'sss']
     ops = []
     news = []
@@ -397,15 +446,20 @@ def gen_case(rng):
         if r2 < 0.25:
             ops.append(['default', rng.choice(THS)])
             continue
-        if news and r2 < 0.6:
-            k = list(rng.choice(news))
-            if rng.random() < 0.3:
+        if news and r2 < 0.65:
+            k = [x if not isinstance(x, list) else list(x) for x in rng.choice(news)]
+            r3 = rng.random()
+            if r3 < 0.3:
                 k[2] = rng.choice(THS + [None, None])
+            elif r3 < 0.7 and k[1]:
+                # the same IDs in the same order, some of the objects replaced by their twins
+                k[1] = [(i + n) % (2 * n) if rng.random() < 0.6 else i for i in k[1]]
         else:
             m = rng.choice([0, 1, 2, 2, 3, n])
-            k = ['new', rng.sample(range(n), m), rng.choice(THS + [None, None, None]), rng.choice(['tuple', 'list'])]
-        news.append(k); ops.append(list(k))
-    return {'kind': 'cache', 'pkg': pk, 'cls': rng.choice(['B', 'D']), 'ops': ops}
+            k = ['new', [i + n * rng.choice([0, 0, 1]) for i in rng.sample(range(n), m)], rng.choice(THS + [None, None, None]),
+                 rng.choice(['tuple', 'list'])]
+        news.append(k); ops.append([x if not isinstance(x, list) else list(x) for x in k])
+    return {'kind': 'cache', 'pkg': pk, 'twins': twins, 'cls': rng.choice(['B', 'D']), 'ops': ops}
 
 def gen_cases(rng, tier):
     n = 330 if tier == 'quick' else 6000
@@ -414,7 +468,7 @@ def gen_cases(rng, tier):
     # (pure, permutation-equivariant Gamma/Phi/PCF, Gamma.f/args == Gamma()) evaluated directly, on every run
     # stratified: every (template, package) combination occurs in every run; the draws inside a case come from rng
     combos = [(t, p) for p in PACKAGES for t in TEMPLATES]
-    return cases + [gen_real(rng, *combos[i % len(combos)]) for i in range(24 if tier == 'quick' else 156)]
+    return cases + [gen_real(rng, *combos[i % len(combos)]) for i in range(30 if tier == 'quick' else 150)]
 
 # ------------------------------------------------------------------ implementation side
 def mk_point(case_cls, cs, thermo):
@@ -490,8 +544,9 @@ def pk_ids(o):
     return [int(type(o.gamma).__name__.startswith('Stub')), int(type(o.phi).__name__.startswith('Stub')),
             int(type(o.pcf).__name__.startswith('Stub'))]
 
-def run_cache(case):
-    cs, _ = install(case['pkg'])
+def run_cache(case, keep=None):
+    cs, _ = install(case['pkg'], case.get('twins'))
+    npool = len(case['pkg']['chems'])
     e = env()
     tmo = e['tmo']
     cls = e['eq'].BubblePoint if case['cls'] == 'B' else e['eq'].DewPoint
@@ -518,7 +573,9 @@ def run_cache(case):
                 objs.append(o); ids.append(len(objs) - 1)
             doms.append([o.Tmin, o.Tmax, o.Pmin, o.Pmax])
             pks.append(pk_ids(o))
-            if tuple(o.IDs) != tuple(POOL[i] for i in idx):
+            if keep is not None:
+                keep.append(o)
+            if tuple(o.IDs) != tuple(POOL[i % npool] for i in idx):
                 oks[-1] = 'wrong-IDs'
     finally:
         tmo.settings.set_thermo(e['thermos']['iii'])
@@ -650,7 +707,7 @@ def coq_case(case, out):
             return f'({cnat(th[0] == "s")}, {cnat(th[1] == "s")}, {cnat(th[2] == "s")})'
         ops = clist([f'(CDefault {cth(o[1])})' if o[0] == 'default' else
                      f'(CNew {clist(o[1], cnat)} {"None" if o[2] is None else "(Some " + cth(o[2]) + ")"})' for o in case['ops']])
-        allc = clist([cchem(c) for c in pk['chems']])
+        allc = clist([cchem(c) for c in pk['chems'] + list(case.get('twins') or [])])
         build = (f'(fun ky : key => match ky with (ids, g, p, f) => '
                  f'let cs := map (fun i => nth i {allc} (mkchem (quad 0 0 0) 0 0 None 0 0)) ids in '
                  f'do k <- new_pkg cs (ideal_gam 0) true (ideal_phi 0) (mock_pcf 0); Ok (pkg_dom k, (g, p, f)) end)')
@@ -713,7 +770,7 @@ def classify(case, out):
         ks += ['solvers:' + '+'.join(out.get('solvers', [])[:4])]
         if case['ks'][0] == 'raise': ks.append('fallback-bracketing-solver')
     elif kd == 'history':
-        ks += ['history:len%d' % len(case['ops']), 'history:in-place-updates:%d' % sum(1 for o in case['ops'] if o[0] == 'set')]
+        ks += ['history:family:' + case.get('family', 'mix'), 'history:len%d' % len(case['ops']), 'history:in-place-updates:%d' % sum(1 for o in case['ops'] if o[0] == 'set')]
         ks += ['history-result:' + (r[0] if r[0] == 'ok' else r[1]) for r in out['res']]
     elif kd == 'real':
         ks += ['real:' + case['package'], 'real:template:' + case.get('template', 'corpus'), 'real:n%d' % len(case['ids'])]
@@ -721,6 +778,8 @@ def classify(case, out):
         ks += ['tsat:' + ('+'.join(out['solvers']) or 'Tb-shortcut') + ':' + (out['res'][0] if out['res'][0] == 'ok' else out['res'][1])]
     elif kd == 'cache':
         ks += ['cache:' + ('hit' if nontrivial(case, out) else 'nohit')] + ['cache-result:' + o for o in out['oks']]
+        npool = len(case['pkg']['chems'])
+        ks += ['cache:constructions-with-twin-objects:%d' % sum(1 for o in case['ops'] if o[0] == 'new' and any(i >= npool for i in o[1]))]
         ks += ['cache:default-package-switches:%d' % sum(1 for o in case['ops'] if o[0] == 'default'),
                'cache:calls-without-thermo:%d' % sum(1 for o in case['ops'] if o[0] == 'new' and o[2] is None)]
     return ks
@@ -794,6 +853,44 @@ def package_contracts(BP, DP, BPp, chs, zn, perm, T, P, label):
 
 STRICT_DEW = bool(os.environ.get('STRICT_DEW'))
 
+class Clause(Exception):
+    """a property clause found violated while the oracle was evaluating (carries the replay message)"""
+
+_RAISE_IS_CLAUSE = [False]     # real chemicals: a solver that raises has not computed a bubble / dew point
+
+def call(obj, name, label, z, arg):
+    """obj.<name>(z, arg); for real chemicals an exception of the implementation is itself the finding"""
+    try:
+        return getattr(obj, name)(z, arg)
+    except ReferenceError:
+        raise
+    except Exception as ex:
+        if _RAISE_IS_CLAUSE[0]:
+            what = 'bubble' if name[-1] == 'y' else 'dew'
+            raise Clause(f'{label}: no {what} point computed: {type(obj).__name__}.{name} raised {type(ex).__name__}: {ex} '
+                         f'(z={np.asarray(z).tolist()}, arg={arg!r})')
+        raise
+
+def domain_of(chs):
+    """the VLE domain and pressure bounds of a chemical list, computed here from the chemicals' own Psat handles"""
+    Ps = [c.Psat for c in chs]
+    Tmin = max(min(p.Tmin for p in Ps), 50.) + 1e-2
+    Tmax = min(max(p.Tmax for p in Ps), 1000.) - 1e-2
+    return Tmin, Tmax, min(p(Tmin) for p in Ps), max(p(Tmax) for p in Ps)
+
+def instance_data(objs, label):
+    """an instance (cached or not) carries the data a fresh build from its own chemical objects gives (C08_cache_coherent,
+    C08_instance_domain)"""
+    for o in objs:
+        want = domain_of(o.chemicals)
+        got = (o.Tmin, o.Tmax, o.Pmin, o.Pmax)
+        if any(rel(a, b) > 1e-9 for a, b in zip(got, want)):
+            return (f'{label}: {type(o).__name__}([{", ".join(o.IDs)}]) carries Tmin/Tmax/Pmin/Pmax = {list(got)}, but the vapour-pressure '
+                    f'correlations of the chemical objects it was built for give {list(want)} (stale or foreign instance data)')
+        if tuple(c.ID for c in o.chemicals) != tuple(o.IDs) or any(p is not c.Psat for p, c in zip(o.Psats, o.chemicals)):
+            return f'{label}: {type(o).__name__} holds IDs / Psat handles that are not those of its chemicals'
+    return None
+
 def in_dom(obj, T):
     # strictly inside: a result AT an end of the object's domain is where the bounded solver stops when the root lies outside
     return obj.Tmin + 1e-6 < T < obj.Tmax - 1e-6
@@ -808,8 +905,8 @@ def check_pair(BP, DP, chs, z, T, P, ideal, label, strict=False):
     zn = z / z.sum()
     ideal_phi = isinstance(BP.phi, env()['eq'].IdealFugacityCoefficients)
     if P is not None:
-        Tb, y = BP.solve_Ty(z.copy(), P)
-        Td, x = DP.solve_Tx(z.copy(), P)
+        Tb, y = call(BP, 'solve_Ty', label, z.copy(), P)
+        Td, x = call(DP, 'solve_Tx', label, z.copy(), P)
         # (sign test only where every vapour pressure is positive: the quadratic stand-ins are negative below their T0)
         pos_b = all(c.Psat(Tb) > 0 for c in chs); pos_d = all(c.Psat(Td) > 0 for c in chs)
         if abs(1 - y.sum()) > 1e-9 or (pos_b and (y < 0).any()): return f'{label}: bubble y not normalised: sum={y.sum()!r}, y={y.tolist()}'
@@ -825,7 +922,22 @@ def check_pair(BP, DP, chs, z, T, P, ideal, label, strict=False):
             return None
         # the defining equations, wherever the returned temperature lies in the domain the object itself declares
         # (the residual is evaluated with the object's own Psat / gamma / phi / pcf, so it is meaningful on all of it)
-        if in_dom(BP, Tb):
+        def res_b(t):
+            ps = np.array([c.Psat(t) for c in chs])
+            return 1 - (zn * ps * BP.gamma(zn, t) * BP.pcf(t, P, ps) / P).sum()
+        def res_d(t):
+            ps = np.array([c.Psat(t) for c in chs])
+            return 1 - (zn * P / ps).sum()
+        def bracketed(f, lo, hi):
+            # the specification is inside the object's domain only if the equation has a root there
+            try:
+                a, b = f(lo), f(hi)
+                return bool(np.isfinite(a) and np.isfinite(b) and a * b < 0)
+            except Exception:
+                return False
+        bub_in = ideal_phi and bracketed(res_b, BP.Tmin, BP.Tmax)
+        dew_in = (not ideal) or bracketed(res_d, DP.Tmin, DP.Tmax)
+        if in_dom(BP, Tb) and bub_in:
             Ps = np.array([c.Psat(Tb) for c in chs])
             yy = zn * Ps * BP.gamma(zn, Tb) * BP.pcf(Tb, P, Ps) / P
             if not ideal_phi:
@@ -835,13 +947,13 @@ def check_pair(BP, DP, chs, z, T, P, ideal, label, strict=False):
                         f'composition is {1 - yy.sum()!r}')
             if not vclose(yy / yy.sum(), y, 1e-6):
                 return f'{label}: returned y={y.tolist()} is not the normalised Raoult vector {(yy / yy.sum()).tolist()} at T={Tb!r}'
-            P2 = BP.solve_Py(z.copy(), Tb)[0]
+            P2 = call(BP, 'solve_Py', label, z.copy(), Tb)[0]
             if rel(P2, P) > 1e-6: return f'{label}: solve_Py(z, solve_Ty(z, P)) = {P2!r} differs from P = {P!r}'
         # With a composition-dependent gamma the inner x*gamma iteration (flexsolve.wegstein, maxiter 50, convergence not
         # checked) does not converge for partially miscible systems on the unchanged tree (e.g. Water/Ammonia/Benzene, Dortmund:
         # 1 - sum x = 0.66); that is the solver-convergence clause DESIGN section 4 lists as measured, not proved, and it is
         # reported separately (STRICT_DEW=1 turns the test on for every package).
-        if in_dom(DP, Td) and (ideal or strict):
+        if in_dom(DP, Td) and (ideal or strict) and dew_in:
             Ps = np.array([c.Psat(Td) for c in chs])
             xx = zn * P / Ps / DP.gamma(x, Td) * DP.phi(zn, Td, P) / DP.pcf(Td, P, Ps)
             if abs(1 - xx.sum()) > 1e-6:
@@ -850,13 +962,13 @@ def check_pair(BP, DP, chs, z, T, P, ideal, label, strict=False):
             # (the dew equation with a composition-dependent gamma can have several liquid roots - e.g. water/hexane - so the
             #  dew inverse is held to ideal K-values only; C08_TP_inverse is the bubble statement, which holds for any gamma)
             if ideal:
-                P3 = DP.solve_Px(z.copy(), Td)[0]
+                P3 = call(DP, 'solve_Px', label, z.copy(), Td)[0]
                 if rel(P3, P) > 1e-6: return f'{label}: solve_Px(z, solve_Tx(z, P)) = {P3!r} differs from P = {P!r}'
-        if ideal and in_dom(BP, Tb) and in_dom(DP, Td) and Tb > Td + 1e-6:
+        if ideal and bub_in and dew_in and in_dom(BP, Tb) and in_dom(DP, Td) and Tb > Td + 1e-6:
             return f'{label}: T_bubble={Tb!r} exceeds T_dew={Td!r} at P={P!r}'
     if T is not None:
-        Pb, y = BP.solve_Py(z.copy(), T)
-        Pd, x = DP.solve_Px(z.copy(), T)
+        Pb, y = call(BP, 'solve_Py', label, z.copy(), T)
+        Pd, x = call(DP, 'solve_Px', label, z.copy(), T)
         if abs(1 - y.sum()) > 1e-9 or abs(1 - x.sum()) > 1e-9: return f'{label}: output not normalised at T={T!r}'
         if npos == 1:
             c = chs[int(np.argmax(z > 0))]
@@ -864,9 +976,11 @@ def check_pair(BP, DP, chs, z, T, P, ideal, label, strict=False):
             if rel(Pb, exp) > 1e-9 or rel(Pd, exp) > 1e-9:
                 return f'{label}: single component {c.ID}: P_bubble={Pb!r}, P_dew={Pd!r}, Psat(T)={exp!r}'
             return None
-        if BP.Tmin < T < BP.Tmax:
+        # (T inside every chemical's own vapour-pressure range is inside any correct domain: a stale / foreign domain on the
+        #  object must not switch the test off)
+        if BP.Tmin < T < BP.Tmax or all(c.Psat.Tmin + 0.02 < T < c.Psat.Tmax - 0.02 for c in chs):
             Ps = np.array([c.Psat(T) for c in chs])
-            if BP.Pmin < Pb < BP.Pmax:
+            if True:
                 yy = zn * Ps * BP.gamma(zn, T) * BP.pcf(T, Pb, Ps) / Pb
                 if not ideal_phi:
                     yy = yy / BP.phi(y, T, Pb)
@@ -882,7 +996,7 @@ def check_pair(BP, DP, chs, z, T, P, ideal, label, strict=False):
             # (with composition-dependent gamma the root in T need not be unique, so only ideal K-values are held to it
             #  strictly; the other packages must at least return a point that satisfies the equation, checked above for P-cases)
             if all(c.Psat.Tmin <= T <= c.Psat.Tmax for c in chs):
-                T2, y2 = BP.solve_Ty(z.copy(), Pb)
+                T2, y2 = call(BP, 'solve_Ty', label, z.copy(), Pb)
                 if ideal and rel(T2, T) > 1e-6:
                     return f'{label}: solve_Ty(z, solve_Py(z, T)) = {T2!r} differs from T = {T!r} (P_bubble={Pb!r})'
                 if in_dom(BP, T2):
@@ -893,11 +1007,11 @@ def check_pair(BP, DP, chs, z, T, P, ideal, label, strict=False):
                     if abs(1 - yy.sum()) > 1e-6:
                         return (f'{label}: bubble equation violated at the returned T={T2!r} for P=P_bubble({T!r})={Pb!r}: '
                                 f'1 - sum y = {1 - yy.sum()!r}')
-                T3, x3 = DP.solve_Tx(z.copy(), Pd)
+                T3, x3 = call(DP, 'solve_Tx', label, z.copy(), Pd)
                 if ideal and rel(T3, T) > 1e-6:
                     return f'{label}: solve_Tx(z, solve_Px(z, T)) = {T3!r} differs from T = {T!r} (P_dew={Pd!r})'
                 if ideal and in_dom(BP, T2) and in_dom(DP, T3):
-                    Tb_at_Pd = BP.solve_Ty(z.copy(), Pd)[0]
+                    Tb_at_Pd = call(BP, 'solve_Ty', label, z.copy(), Pd)[0]
                     if in_dom(BP, Tb_at_Pd) and Tb_at_Pd > T3 + 1e-6:
                         return f'{label}: T_bubble={Tb_at_Pd!r} exceeds T_dew={T3!r} at P={Pd!r}'
     return None
@@ -930,18 +1044,18 @@ def invariance(BP, DP, BPp, DPp, z, perm, k, T, P, label, ideal=True, chs=None, 
         obj, objp, arg = (BP, BPp, P if a == 'P' else T) if o == 'B' else (DP, DPp, P if a == 'P' else T)
         if arg is None:
             continue
-        r0 = getattr(obj, name)(z.copy(), arg)
+        r0 = call(obj, name, label, z.copy(), arg)
         first[name] = r0
         dew_gate = gate is not None and o == 'D'
         if strict and not ideal and o == 'D' and chs is not None and not dew_converged(obj, chs, zn, name, arg, r0):
             return (f'{label}: dew equation violated by the point {name} returned ({r0[0]!r}, arg={arg!r}): the solve does not '
                     f'satisfy its own equation, so results for k*z / a permuted list are not comparable')
         ok0 = (not dew_gate) or gate(name, arg, r0)
-        rk = getattr(obj, name)(k * z, arg)
+        rk = call(obj, name, label, k * z, arg)
         if ok0 and ((not dew_gate) or gate(name, arg, rk)) and (rel(r0[0], rk[0]) > 1e-6 or np.abs(r0[1] - rk[1]).max() > 1e-6):
             return (f'{label}: {name} depends on the scale of z: z={z.tolist()} gives {r0[0]!r}, {k}*z gives {rk[0]!r} '
                     f'(arg={arg!r})')
-        rp = getattr(objp, name)(zp.copy(), arg)
+        rp = call(objp, name, label, zp.copy(), arg)
         okp = (not dew_gate) or dew_converged(objp, [chs[i] for i in perm], zn[perm], name, arg, rp)
         if ok0 and okp and (rel(r0[0], rp[0]) > 1e-6 or np.abs(r0[1][perm] - rp[1]).max() > 1e-6):
             return (f'{label}: {name} depends on the order of the chemicals: {r0[0]!r}, {r0[1].tolist()} vs {rp[0]!r}, '
@@ -953,13 +1067,13 @@ def invariance(BP, DP, BPp, DPp, z, perm, k, T, P, label, ideal=True, chs=None, 
     for name, o, a in CALLS:
         if name in first:
             obj, arg = (BP if o == 'B' else DP), (P if a == 'P' else T)
-            r_fresh = getattr(obj, name)(z2.copy(), arg)     # reference first: nothing of z2 is held by the caller afterwards
+            r_fresh = call(obj, name, label, z2.copy(), arg)     # reference first: nothing of z2 is held by the caller afterwards
             buf = z.copy()
-            getattr(obj, name)(buf, arg)
+            call(obj, name, label, buf, arg)
             if not np.array_equal(buf, z):
                 return f'{label}: {name} modified the composition array of its caller: {z.tolist()} -> {buf.tolist()}'
             buf[:] = z2
-            r_alias = getattr(obj, name)(buf, arg)
+            r_alias = call(obj, name, label, buf, arg)
             if rel(r_alias[0], r_fresh[0]) > 1e-7 or np.abs(r_alias[1] - r_fresh[1]).max() > 1e-7:
                 return (f'{label}: {name} depends on earlier calls: after the caller updated its array in place ({z.tolist()} -> '
                         f'{z2.tolist()}, same arg={arg!r}) it returned {r_alias[0]!r}; the same composition in a fresh array gives '
@@ -975,19 +1089,46 @@ def invariance(BP, DP, BPp, DPp, z, perm, k, T, P, label, ideal=True, chs=None, 
                 continue        # (the dew equation with a composition-dependent gamma can have several roots)
             if a == 'T' and o == 'B' and not (obj.Tmin < arg < obj.Tmax):
                 continue
-            try:
-                with forced_fallback():
-                    rf = getattr(obj, name)(z.copy(), arg)
-            except (RuntimeError, FloatingPointError):
-                continue
-            if rel(r0[0], rf[0]) > 1e-5:
-                return (f'{label}: {name} fall-back path (open solver raised): the bounded solver over [{lo!r}, {hi!r}] returned '
-                        f'{rf[0]!r}, the regular path {r0[0]!r} (arg={arg!r}, z={z.tolist()})')
+            for how in ('runtime', 'infeasible'):
+                try:
+                    with forced_fallback(how):
+                        rf = getattr(obj, name)(z.copy(), arg)
+                except ReferenceError:
+                    raise
+                except Exception as ex:
+                    # with both ends of the bracket in the physical region nothing in the fall-back itself can raise
+                    if lo > 0 and hi > 0 and type(ex).__name__ == 'InfeasibleRegion':
+                        return (f'{label}: {name} error path: the open solver stepped to a non-physical point and the residual raised '
+                                f'InfeasibleRegion; instead of falling back on the bounded solver over [{lo!r}, {hi!r}] the wrapper let it '
+                                f'escape: {ex} (arg={arg!r}, z={z.tolist()}; the regular path gives {r0[0]!r})')
+                    continue
+                if not (lo * (1 + 1e-9) + 1e-9 < rf[0] < hi * (1 - 1e-9) - 1e-9):
+                    continue      # the bounded solver stopped at an end of its bracket: no root in the domain for this spec
+                if rel(r0[0], rf[0]) > 1e-5:
+                    return (f'{label}: {name} fall-back path (open solver failed: {how}): the bounded solver over [{lo!r}, {hi!r}] '
+                            f'returned {rf[0]!r}, the regular path {r0[0]!r} (arg={arg!r}, z={z.tolist()})')
+    # interleaving: the same call after a dew/bubble point on one side of the composition range and after one on the other
+    # side must give the same numbers (a stateless implementation gives them bit for bit; C08_history_independent)
+    if n >= 2:
+        tot = z.sum()
+        side_a = np.full(n, 0.03 * tot / (n - 1)); side_a[0] = 0.97 * tot
+        side_b = np.full(n, 0.03 * tot / (n - 1)); side_b[-1] = 0.97 * tot
+        for name, o, a in CALLS:
+            if name in first:
+                obj, arg = (BP if o == 'B' else DP), (P if a == 'P' else T)
+                call(obj, name, label, side_a.copy(), arg)
+                ra = call(obj, name, label, z.copy(), arg)
+                call(obj, name, label, side_b.copy(), arg)
+                rb = call(obj, name, label, z.copy(), arg)
+                if rel(ra[0], rb[0]) > 1e-12 or np.abs(ra[1] - rb[1]).max() > 1e-12:
+                    return (f'{label}: {name} depends on earlier calls: for z={z.tolist()}, arg={arg!r} it returns {ra[0]!r}, '
+                            f'{ra[1].tolist()} right after the same solve for {side_a.tolist()} and {rb[0]!r}, {rb[1].tolist()} right '
+                            f'after the one for {side_b.tolist()} (state kept on the object between calls)')
     # history independence: the first calls again, after everything else that was computed with these objects
     for name, o, a in CALLS:
         if name in first:
             obj, arg = (BP if o == 'B' else DP), (P if a == 'P' else T)
-            r1 = getattr(obj, name)(z.copy(), arg)
+            r1 = call(obj, name, label, z.copy(), arg)
             r0 = first[name]
             if rel(r0[0], r1[0]) > 1e-7 or np.abs(r0[1] - r1[1]).max() > 1e-7:
                 return (f'{label}: {name} depends on earlier calls: the same call gave {r0[0]!r} first and {r1[0]!r} when repeated '
@@ -1011,15 +1152,23 @@ def oracle(case):
     eq = e['eq']
     kd = case['kind']
     if kd == 'real':
+        _RAISE_IS_CLAUSE[0] = True
         try:
             return oracle_real(case)
+        except Clause as c:
+            return str(c)
         except ReferenceError:
             # numba's on-disk cache index of dew_point.gamma_iter (it takes a dispatcher argument) can be left unusable by a
             # concurrent process ("underlying object has vanished"); from here on this process calls it through its py_func
             gi = e['real_gamma_iter']
             e['real_gamma_iter'] = getattr(gi, 'py_func', gi)
             e['dpm'].gamma_iter = e['real_gamma_iter']
-            return oracle_real(case)
+            try:
+                return oracle_real(case)
+            except Clause as c:
+                return str(c)
+        finally:
+            _RAISE_IS_CLAUSE[0] = False
     return oracle_other(case)
 
 def oracle_real(case):
@@ -1035,6 +1184,8 @@ def oracle_real(case):
         BP, DP = eq.BubblePoint(chs, thermo), eq.DewPoint(chs, thermo)
         BPp, DPp = eq.BubblePoint(chp, thermo), eq.DewPoint(chp, thermo)
         label = f'{"/".join(case["ids"])} ({case["package"]})'
+        m = instance_data((BP, DP, BPp, DPp), label)
+        if m: return m
         T, P = resolve_T(case, chs), case.get('P')
         z = np.array(case['z'], float)
         if int((z > 0).sum()) == 0:
@@ -1083,6 +1234,8 @@ def oracle_other(case):
         # the stand-in Gamma/Phi/PCF read their parameters per chemical, so a permuted object is a permuted package
         BPp, DPp = eq.BubblePoint(tuple(cs[i] for i in perm), thermo), eq.DewPoint(tuple(cs[i] for i in perm), thermo)
         label = 'stub package ' + pk['G'] + pk['Phi'] + pk['PCF']
+        m = instance_data((BP, DP, BPp, DPp), label)
+        if m: return m
         for z, T, P in specs:
             if (z < 0).any() or int((z > 0).sum()) == 0:
                 continue
@@ -1098,7 +1251,10 @@ def oracle_other(case):
                 continue          # real solver left the stand-in package's domain: nothing to compare
         return None
     if kd == 'cache':
-        out = run_cache(case)
+        objs = []
+        out = run_cache(case, keep=objs)
+        m = instance_data(objs, 'constructor history')
+        if m: return m
         seen = {}
         dflt = 'iii'
         news = []
@@ -1139,7 +1295,8 @@ def finding_key(case, msg):
     for pat, key in (('depends on the order', 'perm'), ('not permuted with the chemical list', 'package-perm'),
                      ('change between two', 'package-state'), ('changed while', 'package-state'),
                      ('depends on earlier calls', 'history'), ('modified the composition array', 'caller-array'),
-                     ('fall-back path', 'fallback-path'), ('are not those of', 'cache-package'),
+                     ('fall-back path', 'fallback-path'), ('error path', 'error-path'),
+                     ('point computed', 'raises'), ('stale or foreign instance data', 'instance-data'), ('not those of its chemicals', 'instance-data'), ('are not those of', 'cache-package'),
                      ('share one instance', 'cache-identity'), ('same key returned', 'cache-identity'), ('Gamma.f', 'gamma-f-args'),
                      ('bubble equation violated', 'bubble-equation'),
                      ('differs from T =', 'PT-inverse'), ('differs from P =', 'TP-inverse'), ('exceeds', 'ordering'),
@@ -1149,7 +1306,10 @@ def finding_key(case, msg):
     return 'C08:other'
 
 # ------------------------------------------------------------------ real-chemical cases (regular stream and search)
-TEMPLATES = ['plain', 'mixed-groups', 'edge', 'heavy']
+TEMPLATES = ['plain', 'mixed-groups', 'edge', 'heavy', 'immiscible']
+# water with organics it is only partially miscible with: with an activity-coefficient package the dew equation has a
+# water-rich and an organic-rich liquid root, so anything that biases the solver (a guess kept from an earlier call) shows
+ORGANICS = ['Toluene', 'Hexane', 'Benzene', 'EthylAcetate', 'Octanol', 'Octane', 'Butanol']
 # low-volatility chemicals: at 260-300 K their dew pressures are a few Pa and below (the open pressure solver, which starts
 # at P_guess and P_guess - 10, leaves the feasible region and the wrappers take their bounded fall-back)
 HEAVY = ['Octane', 'Decane', 'Dodecane', 'Octanol', 'EthyleneGlycol', 'Toluene', 'Glycerol', 'Hexadecane']
@@ -1170,6 +1330,10 @@ def gen_real(rng, tpl=None, package=None):
     elif tpl == 'heavy':
         ids = rng.sample(HEAVY, rng.choice([2, 2, 3]))
         package = package or rng.choice(PACKAGES)
+    elif tpl == 'immiscible':
+        ids = ['Water'] + rng.sample(ORGANICS, rng.choice([1, 1, 2]))
+        rng.shuffle(ids)
+        package = package or rng.choice(['dortmund', 'dortmund', 'unifac', 'ideal'])
     else:
         # chemicals whose correlations start within a few kelvin of each other, so that a specification just above the
         # common lower end is inside every chemical's range but within 10 K of the end of the object's VLE domain
@@ -1180,7 +1344,7 @@ def gen_real(rng, tpl=None, package=None):
         rng.shuffle(ids)
         package = package or rng.choice(['ideal', 'ideal', 'ideal', 'dortmund', 'unifac'])
     m = len(ids)
-    z = [rng.choice([0.25, 0.5, 1., 2., 3., 0.125, 0.05]) for _ in range(m)]
+    z = [rng.choice([0.25, 0.5, 1., 2., 3., 0.125, 0.05] if tpl != 'immiscible' else [0.35, 0.45, 0.55, 0.65, 1., 0.5]) for _ in range(m)]
     if m > 1 and rng.random() < 0.15:
         z[rng.randrange(m)] = rng.choice([0., 1e-6])
     if sum(1 for x in z if x > 0) == 0:
@@ -1189,7 +1353,12 @@ def gen_real(rng, tpl=None, package=None):
     if m > 1 and perm == list(range(m)):
         perm = perm[1:] + perm[:1]
     c = {'kind': 'real', 'template': tpl, 'ids': ids, 'z': z, 'perm': perm, 'k': rng.choice([3., 0.5, 10., 1e-3, 4.]), 'package': package}
-    if tpl == 'heavy':
+    if tpl == 'immiscible':
+        if rng.random() < 0.7:
+            c['P'] = float(rng.choice([5e4, 101325., 2e5, 5e5]))
+        else:
+            c['Tspec'] = ['frac', rng.choice([0.3, 0.45, 0.6])]
+    elif tpl == 'heavy':
         c['Tspec'] = ['lo', rng.choice([1., 3., 8., 15., 25.])]
     elif tpl == 'edge':
         c['Tspec'] = ['lo', rng.choice([0.25, 1., 2., 0.5, 1.5, 5., 12., 25.])]
